@@ -129,8 +129,16 @@ def generate(rng, seed, part):
             ops.append({"op": "sum", "items": items, "out": nodes})
             nodes += 1
         elif r < 0.60:
-            ops.append({"op": "copy", "a": a, "out": nodes})
+            ops.append({"op": "copy", "a": a, "out": nodes, "empty": rng.random() < 0.4})
             nodes += 1
+            if ops[-1]["empty"] and n:
+                # the empty clone is a fresh accumulator: it receives (a few of) the entries again
+                for _ in range(rng.randint(1, 3)):
+                    if rng.random() < 0.5:
+                        ops.append({"op": "fill", "n": nodes - 1, "i": rng.randrange(n)})
+                    else:
+                        ops.append({"op": "fill_n", "n": nodes - 1, "cont": rng.choice(conts),
+                                    "idx": [rng.randrange(n) for _ in range(rng.randint(1, 4))]})
         elif r < 0.85:
             ops.append({"op": "scale", "a": a, "how": rng.choice(["mul", "div", "imul", "idiv", "normalize", "rmul"]),
                         "c": rng.choice([2, 3, 0.5, 0.25, 2.5, 0.1, 7]), "out": nodes})
@@ -373,13 +381,31 @@ def execute(plan, ctx):
             a = nodes.get(op["a"])
             if a is None or not a.valid:
                 continue
-            ok, res = attempt(a.h.copy)
-            ctx.ev("red", "copy", op["a"], "ok" if ok else exc_tag(res))
-            ctx.abstract("copy", ok)
+            empty = bool(op.get("empty"))
+            ok, res = attempt(a.h.copy) if not empty else attempt(a.h.copy, include_frequencies=False)
+            ctx.ev("red", "copy" if not empty else "copy_empty", op["a"], "ok" if ok else exc_tag(res))
+            ctx.abstract("copy", empty, ok)
             if not ok:
                 ctx.probe("copy_failed:" + type(res).__name__)
                 return
             ctx.fault("copy")
+            if empty:
+                # an empty clone knows nothing about the data of its source: its statistics are those of no data
+                nodes[op["out"]] = Node(res, [], 1.0)
+                check(ctx, nodes[op["out"]], "copy_empty")
+                st = res.statistics
+                ref = Histogram1D(build.make_binning(cfg["axis"])).statistics  # what "no data" looks like
+
+                def same(x, y):
+                    x, y = float(x), float(y)
+                    return x == y or (math.isnan(x) and math.isnan(y))
+
+                if not (same(st.min, ref.min) and same(st.max, ref.max) and same(st.median, ref.median)):
+                    ctx.violation("C14/empty", "C14/empty-clone-remembers/copy_empty",
+                                  f"copy(include_frequencies=False) of a histogram with data reports min={st.min!r} "
+                                  f"max={st.max!r} median={st.median!r}; a histogram without data reports "
+                                  f"{ref.min!r} / {ref.max!r} / {ref.median!r}")
+                continue
             nodes[op["out"]] = Node(res, a.bag, a.factor)
             check(ctx, nodes[op["out"]], "copy")
         elif o == "scale":
